@@ -37,8 +37,12 @@ def check(ck):
     with ck.rule("R7"):
         c05._usage_coverage(ck, repo)
         c06._scoped_context(ck, repo, w)
+        # the document-level collectors (variables / fragments used through nested spreads) must lose nothing
+        c06._document_level(ck, repo, w)
     with ck.rule("R8"):
         c06.rule_tables(ck, repo, w)
+        from .c03 import possible_type_sets
+        possible_type_sets(ck, repo)
 
 
 def _census(ck, repo, w):
